@@ -4,3 +4,111 @@ def driver_binding(c, runs):
 
 def deferral_glue(c):
     c.assumptions.append("driver glue (process_restarting_outputs) binding not built yet")
+
+
+def gr_glue(c):
+    """C10 driver binding: GrHelper.tla behaviours on the real session code (event.rs::gr_replay)."""
+    import json
+    import os
+    import vf
+    import C10
+    reasons = ["io", "remote_cease", "remote_hard_reset", "remote_noncease", "local_noncease", "admin", "admin_down_flag"]
+    thorough = c.tier == "thorough"
+    cfg = C10.write_cfg("C10.glue.cfg", ["v4", "v6"], [1], reasons, "GenSpec", ["EmitEdge"])
+    r = vf.tlc(C10.SPEC, "GrHelperMC", cfg, workers=4, timeout=900, want_edges=True)
+    edges = r.edges
+    init = None
+    for e in edges:
+        p = e["pre"]
+        if p["gr"]["st"] == "Idle" and not p["rt"] and not p["lt"] and p["sess"] == "down" and \
+                all(not v for v in p["routes"].values()):
+            init = vf.canon(p)
+            break
+    budget = None if thorough else 9000
+    seqs, covered, total = vf.cover_sequences(edges, init_key=init, max_len=40, budget=budget, seed=c.seed)
+    inp = os.path.join(vf.WORK, "C10.ev.in")
+    outp = os.path.join(vf.WORK, "C10.ev.out")
+
+    def fs(x):
+        return ",".join(sorted(x)) if x else "-"
+
+    def line(op):
+        k = op["k"]
+        if k == "establish":
+            return f"establish {fs(op['gr'])} {fs(op['llgr'])} {1 if op['nbit'] else 0}"
+        if k == "announce":
+            return f"announce {op['f']} {op['x']} {1 if op['n'] else 0}"
+        if k == "withdraw":
+            return f"withdraw {op['f']} {op['x']}"
+        if k in ("eor", "llgrtimer"):
+            return f"{k} {op['f']}"
+        if k == "drop":
+            return f"drop {op['reason']}"
+        return k
+    with open(inp, "w") as f:
+        for si, seq in enumerate(seqs):
+            f.write(f"seq e{si}\n")
+            for ei in seq:
+                f.write(line(edges[ei]["op"]) + "\n")
+    if os.path.exists(outp):
+        os.remove(outp)
+    rc, out = vf.daemon_test("event::verif_harness::gr_replay", env={"VERIF_IN": inp, "VERIF_OUT": outp}, timeout=3000)
+    if rc != 0 or not os.path.exists(outp):
+        raise vf.ToolError(f"event harness gr_replay failed rc={rc}:\n{out[-3000:]}")
+    got = {(j["seq"], j["step"]): j for j in vf.read_jsonl(outp)}
+    ST = C10.ST
+
+    def norm_model(p):
+        return {"gr": {"st": ST[p["gr"]["st"]], "fams": sorted(p["gr"]["fams"]), "llgr": sorted(p["gr"]["llgr"]),
+                       "fl": p["gr"]["fl"]},
+                "rt": p["rt"], "lt": sorted(p["lt"]), "sess": p["sess"],
+                "routes": {f: sorted([r["x"], r["st"], r["ll"]] for r in rs) for f, rs in p["routes"].items()}}
+
+    def norm_real(st):
+        g = st["gr"]
+        return {"gr": {"st": g["st"], "fams": sorted(g["fams"]), "llgr": sorted(g["llgr"]), "fl": g["from_llgr"]},
+                "rt": st["rt"], "lt": sorted(st["lt"]), "sess": st["sess"],
+                "routes": {f: sorted(list(r) for r in rs) for f, rs in st["routes"].items()}}
+
+    def monitor(real):
+        """C10 core invariant evaluated on the real projected state."""
+        bad = []
+        for f, rs in real["routes"].items():
+            if any(r[1] or r[2] for r in rs):
+                pend = real["rt"] or f in real["lt"] or (real["sess"] == "up" and real["gr"]["st"] == "PeerReconnected"
+                                                         and f in real["gr"]["fams"])
+                if not pend:
+                    bad.append(f"stale routes of {f} exist but no restart timer, no LLGR timer and no End-of-RIB is pending")
+        return bad
+    steps = 0
+    for si, seq in enumerate(seqs):
+        for i, ei in enumerate(seq, start=1):
+            e = edges[ei]
+            j = got.get((f"e{si}", i))
+            if j is None:
+                raise vf.ToolError(f"no event-harness record for e{si} step {i}")
+            steps += 1
+            real = norm_real(j["state"])
+            model = norm_model(e["post"])
+            detail = None
+            mon = monitor(real)
+            if mon:
+                detail = {"kind": "glue.monitor", "failed": mon, "actual": real}
+            elif real != model:
+                diff = {k: {"expected": model[k], "actual": real[k]} for k in model if model[k] != real[k]}
+                detail = {"kind": "glue.state", "diff": diff}
+            if detail:
+                detail.update({"step": i, "op": e["op"], "harness_note": j.get("note", "")})
+                c.violation(detail["kind"], detail, {"spec": "GrHelper", "steps": [line(edges[x]["op"]) for x in seq[:i]]})
+                break
+    c.cov["parts"]["driver"] = {"model_transitions": total, "covered": covered, "sequences": len(seqs),
+                                "steps_replayed": steps, "reasons": reasons,
+                                "not_executed": ["hold (needs a real 3 s wait)", "local_cease (max-prefix)"]}
+    c.cov["evaluations"] += steps
+    c.cov["traces_validated_against_impl"] += len(seqs)
+    c.cov["exhaustive"] = covered == total
+    if seqs:
+        c.sample({"driver_ops": [line(edges[i]["op"]) for i in seqs[0][:12]]})
+    c.assumptions.append("session-end classes 'hold' and 'local_cease' are decided at model level and by the shared eligibility "
+                         "function only; the driver replay executes io / remote cease / hard reset / remote non-cease / local "
+                         "non-cease / admin shutdown / admin-down")
